@@ -4,8 +4,9 @@
    alloc(0)), 961d315 (pool deallocall), 942c78c (heap size overflow), b8d094a (heap realloc-shrink
    coalescing), 942989e (span count overflow), 532034f (aligned request overflow), 9ef0717 (heap
    deallocall clears the used marks): the statements are the full-strength ones, over ALL histories
-   with sizes anywhere in 0 .. 2^64-1.  The only hypotheses are the [*cfg_ok] facts about the buffer
-   (a real object that does not wrap the address space). *)
+   with sizes anywhere in 0 .. 2^64-1, with one [_refuted]/[_partial] pair left (the pointer just past
+   the heap's end node is accepted by dealloc, open finding).  The only hypotheses are the [*cfg_ok]
+   facts about the buffer (a real object that does not wrap the address space). *)
 From Coq Require Import ZArith List Bool Permutation.
 From Base Require Import LuaInt.
 From C11 Require Import Gen Model Heap HeapA Spec SpecHeap ProofsArena ProofsStack ProofsPool ProofsHeap ProofsHeapNaf ProofsHeapBytes RefineHeap RefineTop Iface ProofsIface Aligned ProofsAligned.
@@ -139,22 +140,29 @@ Theorem C11_heap_mem_safe : forall c ops, hcfg_ok c -> Forall hop_usize ops ->
 Proof. exact heap_mem_safe_proof. Qed.
 Print Assumptions C11_heap_mem_safe.
 
-(* "reports a double free instead of corrupting itself", full strength on the memory-level model:
-   dealloc of ANY non-nil pointer that is not a live block panics.  False of the unchanged code:
-   deallocall leaves the NODE_COOKIE marks of the old chunks in the buffer (known finding) *)
-
-(* what does hold: a pointer to the header of a FREE chunk of the current state - a block that has
-   just been freed and was not absorbed by its predecessor, a block of a coalesced region's start -
-   fails the cookie test of the memory-level dealloc.  (Pointers into payloads read client bytes or
-   stale header words; with the abstract model they are all rejected, which is why the abstract
-   statement is not listed here any more.) *)
-Theorem C11_heap_mem_invalid_free_reported_partial : forall c ops s sa live x,
+(* "reports an invalid free instead of corrupting itself", on the memory-level model.
+   The refinement carries a mark invariant (Rep.rp_marks): the used mark next = 1 / prev = NODE_COOKIE
+   is found at no 16-aligned address other than the chunk headers and the end node - nothing the
+   allocator leaves behind in a payload (absorbed headers, old bin links, the previous generation
+   after deallocall, repair 9ef0717) looks like an allocated chunk.  Hence: after ANY history, dealloc
+   of ANY non-nil pointer that is not a live block panics - double frees, pointers of a previous
+   generation, pointers into payloads or outside the buffer - with ONE exception, the address just
+   past the end node of an initialised heap (one past the end of the region). *)
+Theorem C11_heap_mem_invalid_free_reported_partial : forall c ops s live p,
   hcfg_ok c -> Forall hop_usize ops ->
-  crun c (heap_init_state, []) ops = Some (s, live) -> hrun c (ha_init_state, []) ops = Some (sa, live) ->
-  ha_initialized sa = true -> In x (ha_chunks sa) -> c_used x = false ->
-  hp_dealloc s (c_addr x + NODE) = HPanic.
-Proof. exact heap_mem_free_header_reported_proof. Qed.
+  crun c (heap_init_state, []) ops = Some (s, live) ->
+  0 < p < two64 -> ~ In p (map b_addr live) ->
+  (h_initialized s = true -> p <> heap_end c + NODE) ->
+  hp_dealloc s p = HPanic.
+Proof. exact heap_mem_invalid_free_reported_proof. Qed.
 Print Assumptions C11_heap_mem_invalid_free_reported_partial.
+
+(* the exception is real (known finding): the end node is marked used like an allocated chunk, so
+   the full-strength statement (no exception) is false - HeapAllocator(200) whose end node is
+   16-aligned accepts dealloc(buffer + 200) after alloc(8) *)
+Theorem C11_heap_mem_invalid_free_reported_refuted : ~ heap_mem_invalid_free_reported_full.
+Proof. exact heap_mem_invalid_free_reported_refuted_proof. Qed.
+Print Assumptions C11_heap_mem_invalid_free_reported_refuted.
 
 (* ---------------- heap: payload contents (byte functions, as for the arena) ---------------- *)
 (* realloc keeps the first min(old,new) bytes of the block - also when it moves it (memory.copy of
